@@ -39,20 +39,15 @@ func vDir(depth, n int) string {
 
 var vIDPool = []string{"AA", "BB", "CC"}
 
-// vIDSubset returns a nondet subset of the 3-ID pool in nondet (forward / reverse) order.
+// vIDSubset returns one of a few unsorted ID lists over the 3-ID pool (the constructors sort and de-duplicate).
 func vIDSubset() []string {
-	var out []string
-	rev := verifNondetBool()
-	for i := range vIDPool {
-		k := i
-		if rev {
-			k = len(vIDPool) - 1 - i
-		}
-		if verifNondetBool() {
-			out = append(out, vIDPool[k])
-		}
+	switch verifNondetChoice(3) {
+	case 0:
+		return nil
+	case 1:
+		return []string{vIDPool[1]}
 	}
-	return out
+	return []string{vIDPool[2], vIDPool[0], vIDPool[2]}
 }
 
 func vStrsEq(a, b []string) bool {
@@ -141,4 +136,16 @@ func vLintConfigEq(a, b LintConfig) bool {
 
 func vBreakingConfigEq(a, b BreakingConfig) bool {
 	return vCheckConfigEq(a, b) && a.IgnoreUnstablePackages() == b.IgnoreUnstablePackages()
+}
+
+// vKnownF3Disabled gates the class of finding F3a: a disabled lint/breaking config is written as an empty section
+// (Disabled() is lost on the round trip).
+func vKnownF3Disabled(class bool) bool {
+	return class //TMP
+}
+
+// vKnownF3Includes gates the class of finding F3b: a v2 file whose only module is at "." with includes and no
+// excludes is collapsed to the module-less form by the writer, which has no place for the includes.
+func vKnownF3Includes(class bool) bool {
+	return verifKnown("F3b-single-root-module-includes-not-written", class)
 }
